@@ -407,10 +407,8 @@ struct CountOp
     Eigen::Index cols() const { return in.cols(); }
     void perform_op(const Scalar* x, Scalar* y) const
     {
-        st->count++;
+        // `total` numbers the attempts (fault positions); `count` is the number of applications actually carried out
         st->total++;
-        if (st->in_probe)
-            st->probe++;
         const Eigen::Index n = in.rows();
         if (x == NULL || y == NULL || (x <= y && y < x + n) || (y <= x && x < y + n))
             st->bad++;
@@ -422,6 +420,9 @@ struct CountOp
             throw Fault(st->fault_tag);
         }
         in.perform_op(x, y);
+        st->count++;
+        if (st->in_probe)
+            st->probe++;
     }
     template <typename A>
     void set_shift(const A& a)
